@@ -118,6 +118,16 @@ CHECKS.update({
         ref="DESIGN.md section 2 C17"),
 })
 
+CHECKS.update({
+    "C10": dict(
+        technique="runtime monitoring: round-trip oracle (split by direct slicing, concatenate, compare data bitwise and metadata in exact "
+                  "rational arithmetic), associativity oracle over random groupings, refusal oracle over perturbed sequences",
+        text="Exploration: split/concatenate histories over all classes, both axes (and trailing axes), cut patterns incl. empty pieces, "
+             "patterns of missing start times and groupings; 22 kinds of perturbation by at least one sample/channel (incl. deep "
+             "discontinuities and sub-1e-5 rate drifts on long Dask-backed pieces) must be refused with the documented exception type.",
+        ref="DESIGN.md section 2 C10"),
+})
+
 NOT_YET = {}
 
 
